@@ -1,0 +1,803 @@
+//go:build verif
+// +build verif
+
+package pub
+
+// Machine-checked contracts for the functions of this package, read by the
+// verification condition generator in /verif (govc). This file contains only
+// comments: it adds no executable code, and it is compiled only under the build
+// tag "verif". Lines starting with "//@" are contract clauses; the tag in square
+// brackets names the property (see /verif/properties.jsonl) a clause belongs to;
+// untagged clauses belong to every property. Ghost state (held, authed, wrote, ...)
+// and the assumed contracts of the application interfaces are in /verif/spec.
+
+// The DelegateActor that baseActor talks to is taken to be the library's sideEffectActor;
+// a custom delegate (NewCustomActor) is assumed to meet the same contracts.
+//@ iface pub.DelegateActor.PostInboxRequestBodyHook satisfies (*pub.sideEffectActor).PostInboxRequestBodyHook
+//@ iface pub.DelegateActor.PostOutboxRequestBodyHook satisfies (*pub.sideEffectActor).PostOutboxRequestBodyHook
+//@ iface pub.DelegateActor.AuthenticatePostInbox satisfies (*pub.sideEffectActor).AuthenticatePostInbox
+//@ iface pub.DelegateActor.AuthenticateGetInbox satisfies (*pub.sideEffectActor).AuthenticateGetInbox
+//@ iface pub.DelegateActor.AuthorizePostInbox satisfies (*pub.sideEffectActor).AuthorizePostInbox
+//@ iface pub.DelegateActor.PostInbox satisfies (*pub.sideEffectActor).PostInbox
+//@ iface pub.DelegateActor.InboxForwarding satisfies (*pub.sideEffectActor).InboxForwarding
+//@ iface pub.DelegateActor.PostOutbox satisfies (*pub.sideEffectActor).PostOutbox
+//@ iface pub.DelegateActor.AddNewIDs satisfies (*pub.sideEffectActor).AddNewIDs
+//@ iface pub.DelegateActor.Deliver satisfies (*pub.sideEffectActor).Deliver
+//@ iface pub.DelegateActor.AuthenticatePostOutbox satisfies (*pub.sideEffectActor).AuthenticatePostOutbox
+//@ iface pub.DelegateActor.AuthenticateGetOutbox satisfies (*pub.sideEffectActor).AuthenticateGetOutbox
+//@ iface pub.DelegateActor.WrapInCreate satisfies (*pub.sideEffectActor).WrapInCreate
+//@ iface pub.DelegateActor.GetOutbox satisfies (*pub.sideEffectActor).GetOutbox
+//@ iface pub.DelegateActor.GetInbox satisfies (*pub.sideEffectActor).GetInbox
+
+//@ field pub.FederatingWrappedCallbacks.deliver satisfies (*pub.sideEffectActor).Deliver
+//@ field pub.FederatingWrappedCallbacks.addNewIds satisfies (*pub.sideEffectActor).AddNewIDs
+//@ field pub.FederatingWrappedCallbacks.newTransport
+//@ modifies appCalls
+//@ ensures appCalls == old(appCalls) + 1
+//@ ensures err == nil ==> t != nil
+//@ field pub.SocialWrappedCallbacks.newTransport
+//@ modifies appCalls
+//@ ensures appCalls == old(appCalls) + 1
+//@ ensures err == nil ==> t != nil
+//@ dyncall pub.mustHaveActivityActorsMatchObjectActors.newTransport
+//@ modifies appCalls
+//@ ensures appCalls == old(appCalls) + 1
+//@ ensures err == nil ==> t != nil
+
+//@ func (*pub.baseActor).PostInboxScheme
+//@ [C11] requires b != nil && b.delegate != nil && w != nil && r != nil && r.URL != nil && r.Body != nil
+//@ [C09] requires unlocked: held == emp
+//@ [C09] ensures unlocked: held == emp
+//@ [C08] requires unlocked: held == emp
+//@ [C08] ensures unlocked: held == emp
+//@ [C07] requires fresh_request: !authed && !cleared && eff == 0 && appCalls == 0 && wrote == 0
+//@ [C07] ensures not_ap: !(r.Method == "POST" && isASMedia(old(hdr)[r.Header]["Content-Type"])) ==> !result0 && result1 == nil && eff == 0 && appCalls == 0 && wrote == 0
+//@ [C07] ensures disabled_405: r.Method == "POST" && isASMedia(old(hdr)[r.Header]["Content-Type"]) && !b.enableFederatedProtocol ==> result0 && result1 == nil && status == 405 && appCalls == 0 && eff == 0
+//@ [C07] ensures unauthenticated_no_effect: !authed ==> eff == 0
+//@ [C07] ensures blocked_no_effect: !cleared ==> eff == 0
+//@ [C10] requires fresh_request: wrote == 0 && libWrote == 0 && bodyWrites == 0
+//@ [C10] ensures not_handled: !result0 ==> wrote == 0 && result1 == nil
+//@ [C10] ensures error_unwritten: result0 && result1 != nil ==> libWrote == 0
+//@ [C10] ensures one_status: result0 && result1 == nil ==> wrote == 1
+//@ [C10] ensures disabled_405: r.Method == "POST" && isASMedia(old(hdr)[r.Header]["Content-Type"]) && !b.enableFederatedProtocol ==> result0 && result1 == nil && status == 405
+//@ modifies $db, authed, cleared, wrote, libWrote, status, bodyWrites, hdr, bufstr, H:net/url.URL.Host, H:net/url.URL.Scheme, A:Int, A:Iface
+
+//@ func (*pub.baseActor).PostInbox
+//@ [C11] requires b != nil && b.delegate != nil && w != nil && r != nil && r.URL != nil && r.Body != nil
+//@ [C09] requires unlocked: held == emp
+//@ [C09] ensures unlocked: held == emp
+//@ [C08] requires unlocked: held == emp
+//@ [C08] ensures unlocked: held == emp
+//@ [C07] requires fresh_request: !authed && !cleared && eff == 0 && appCalls == 0 && wrote == 0
+//@ [C07] ensures unauthenticated_no_effect: !authed ==> eff == 0
+//@ [C07] ensures blocked_no_effect: !cleared ==> eff == 0
+//@ [C10] requires fresh_request: wrote == 0 && libWrote == 0 && bodyWrites == 0
+//@ [C10] ensures not_handled: !result0 ==> wrote == 0 && result1 == nil
+//@ [C10] ensures error_unwritten: result0 && result1 != nil ==> libWrote == 0
+//@ [C10] ensures one_status: result0 && result1 == nil ==> wrote == 1
+//@ modifies $db, authed, cleared, wrote, libWrote, status, bodyWrites, hdr, bufstr, H:net/url.URL.Host, H:net/url.URL.Scheme, A:Int, A:Iface
+
+//@ func (*pub.baseActor).PostOutboxScheme
+//@ [C11] requires b != nil && b.delegate != nil && w != nil && r != nil && r.URL != nil && r.Body != nil
+//@ [C09] requires unlocked: held == emp
+//@ [C09] ensures unlocked: held == emp
+//@ [C08] requires unlocked: held == emp
+//@ [C08] ensures unlocked: held == emp
+//@ [C07] requires fresh_request: !authed && !cleared && eff == 0 && appCalls == 0 && wrote == 0
+//@ [C07] ensures not_ap: !(r.Method == "POST" && isASMedia(old(hdr)[r.Header]["Content-Type"])) ==> !result0 && result1 == nil && eff == 0 && appCalls == 0 && wrote == 0
+//@ [C07] ensures disabled_405: r.Method == "POST" && isASMedia(old(hdr)[r.Header]["Content-Type"]) && !b.enableSocialProtocol ==> result0 && result1 == nil && status == 405 && appCalls == 0 && eff == 0
+//@ [C07] ensures unauthenticated_no_effect: !authed ==> eff == 0
+//@ [C10] requires fresh_request: wrote == 0 && libWrote == 0 && bodyWrites == 0
+//@ [C10] ensures not_handled: !result0 ==> wrote == 0 && result1 == nil
+//@ [C10] ensures error_unwritten: result0 && result1 != nil ==> libWrote == 0
+//@ [C10] ensures one_status: result0 && result1 == nil ==> wrote == 1
+//@ [C10] ensures disabled_405: r.Method == "POST" && isASMedia(old(hdr)[r.Header]["Content-Type"]) && !b.enableSocialProtocol ==> result0 && result1 == nil && status == 405
+//@ modifies $db, authed, cleared, wrote, libWrote, status, bodyWrites, hdr, bufstr, H:net/url.URL.Host, H:net/url.URL.Scheme, A:Int, A:Iface
+
+//@ func (*pub.baseActor).PostOutbox
+//@ [C11] requires b != nil && b.delegate != nil && w != nil && r != nil && r.URL != nil && r.Body != nil
+//@ [C09] requires unlocked: held == emp
+//@ [C09] ensures unlocked: held == emp
+//@ [C08] requires unlocked: held == emp
+//@ [C08] ensures unlocked: held == emp
+//@ [C07] requires fresh_request: !authed && !cleared && eff == 0 && appCalls == 0 && wrote == 0
+//@ [C07] ensures unauthenticated_no_effect: !authed ==> eff == 0
+//@ [C10] requires fresh_request: wrote == 0 && libWrote == 0 && bodyWrites == 0
+//@ [C10] ensures not_handled: !result0 ==> wrote == 0 && result1 == nil
+//@ [C10] ensures error_unwritten: result0 && result1 != nil ==> libWrote == 0
+//@ [C10] ensures one_status: result0 && result1 == nil ==> wrote == 1
+//@ modifies $db, authed, cleared, wrote, libWrote, status, bodyWrites, hdr, bufstr, H:net/url.URL.Host, H:net/url.URL.Scheme, A:Int, A:Iface
+
+//@ func (*pub.baseActor).GetInbox
+//@ [C11] requires b != nil && b.delegate != nil && b.clock != nil && w != nil && r != nil
+//@ [C09] requires unlocked: held == emp
+//@ [C09] ensures unlocked: held == emp
+//@ [C08] requires unlocked: held == emp
+//@ [C08] ensures unlocked: held == emp
+//@ [C07] requires fresh_request: !authed && !cleared && eff == 0 && appCalls == 0 && wrote == 0
+//@ [C07] ensures not_ap: !(r.Method == "GET" && isASMedia(old(hdr)[r.Header]["Accept"])) ==> !result0 && result1 == nil && eff == 0 && appCalls == 0 && wrote == 0
+//@ [C07] ensures unauthenticated_no_effect: !authed ==> eff == 0
+//@ [C10] requires fresh_request: wrote == 0 && libWrote == 0 && bodyWrites == 0
+//@ [C10] ensures not_handled: !result0 ==> wrote == 0 && result1 == nil
+//@ [C10] ensures error_unwritten: result0 && result1 != nil ==> libWrote == 0
+//@ [C10] ensures one_status: result0 && result1 == nil ==> wrote == 1
+//@ [C10] ensures status_200: result0 && result1 == nil && authed ==> status == 200
+//@ modifies $db, authed, wrote, libWrote, status, bodyWrites, hdr, bufstr
+
+//@ func (*pub.baseActor).GetOutbox
+//@ [C11] requires b != nil && b.delegate != nil && b.clock != nil && w != nil && r != nil
+//@ [C09] requires unlocked: held == emp
+//@ [C09] ensures unlocked: held == emp
+//@ [C08] requires unlocked: held == emp
+//@ [C08] ensures unlocked: held == emp
+//@ [C07] requires fresh_request: !authed && !cleared && eff == 0 && appCalls == 0 && wrote == 0
+//@ [C07] ensures not_ap: !(r.Method == "GET" && isASMedia(old(hdr)[r.Header]["Accept"])) ==> !result0 && result1 == nil && eff == 0 && appCalls == 0 && wrote == 0
+//@ [C07] ensures unauthenticated_no_effect: !authed ==> eff == 0
+//@ [C10] requires fresh_request: wrote == 0 && libWrote == 0 && bodyWrites == 0
+//@ [C10] ensures not_handled: !result0 ==> wrote == 0 && result1 == nil
+//@ [C10] ensures error_unwritten: result0 && result1 != nil ==> libWrote == 0
+//@ [C10] ensures one_status: result0 && result1 == nil ==> wrote == 1
+//@ [C10] ensures status_200: result0 && result1 == nil && authed ==> status == 200
+//@ modifies $db, authed, wrote, libWrote, status, bodyWrites, hdr, bufstr
+
+//@ func (*pub.baseActor).deliver
+//@ [C11] requires b != nil && b.delegate != nil && outbox != nil && asValue != nil
+//@ [C09] requires unlocked: held == emp
+//@ [C09] ensures unlocked: held == emp
+//@ [C08] requires unlocked: held == emp
+//@ [C08] ensures unlocked: held == emp
+//@ [C07] requires authed: authed
+//@ modifies $db, A:Int, A:Iface
+
+//@ func (*pub.baseActorFederating).Send
+//@ [C11] requires b != nil && b.baseActor.delegate != nil && outbox != nil && t != nil
+//@ [C09] requires unlocked: held == emp
+//@ [C09] ensures unlocked: held == emp
+//@ [C08] requires unlocked: held == emp
+//@ [C08] ensures unlocked: held == emp
+//@ [C07] requires authed: authed
+//@ modifies $db, A:Int, A:Iface
+
+// ---------------------------------------------------------------- side_effect_actor.go
+//@ func (*pub.sideEffectActor).AuthenticatePostInbox
+//@ [C11] requires a != nil && a.s2s != nil
+//@ modifies authed, wrote, appCalls, ASH
+//@ ensures appCalls == old(appCalls) + 1
+//@ ensures authed == (err == nil && authenticated)
+//@ ensures err != nil ==> wrote == old(wrote)
+//@ ensures err == nil && !authenticated ==> wrote == old(wrote) + 1
+//@ ensures err == nil && authenticated ==> wrote == old(wrote)
+
+//@ func (*pub.sideEffectActor).AuthenticateGetInbox
+//@ [C11] requires a != nil && a.common != nil
+//@ modifies authed, wrote, appCalls, ASH
+//@ ensures appCalls == old(appCalls) + 1
+//@ ensures authed == (err == nil && authenticated)
+//@ ensures err != nil ==> wrote == old(wrote)
+//@ ensures err == nil && !authenticated ==> wrote == old(wrote) + 1
+//@ ensures err == nil && authenticated ==> wrote == old(wrote)
+
+//@ func (*pub.sideEffectActor).AuthenticatePostOutbox
+//@ [C11] requires a != nil && a.c2s != nil
+//@ modifies authed, wrote, appCalls, ASH
+//@ ensures appCalls == old(appCalls) + 1
+//@ ensures authed == (err == nil && authenticated)
+//@ ensures err != nil ==> wrote == old(wrote)
+//@ ensures err == nil && !authenticated ==> wrote == old(wrote) + 1
+//@ ensures err == nil && authenticated ==> wrote == old(wrote)
+
+//@ func (*pub.sideEffectActor).AuthenticateGetOutbox
+//@ [C11] requires a != nil && a.common != nil
+//@ modifies authed, wrote, appCalls, ASH
+//@ ensures appCalls == old(appCalls) + 1
+//@ ensures authed == (err == nil && authenticated)
+//@ ensures err != nil ==> wrote == old(wrote)
+//@ ensures err == nil && !authenticated ==> wrote == old(wrote) + 1
+//@ ensures err == nil && authenticated ==> wrote == old(wrote)
+
+//@ func (*pub.sideEffectActor).PostInboxRequestBodyHook
+//@ [C11] requires a != nil && a.s2s != nil
+//@ modifies appCalls, ASH
+//@ ensures appCalls == old(appCalls) + 1
+
+//@ func (*pub.sideEffectActor).PostOutboxRequestBodyHook
+//@ [C11] requires a != nil && a.c2s != nil
+//@ modifies appCalls, ASH
+//@ ensures appCalls == old(appCalls) + 1
+
+//@ func (*pub.sideEffectActor).GetOutbox
+//@ [C11] requires a != nil && a.common != nil
+//@ [C07] requires authed: authed
+//@ modifies eff, appCalls
+//@ ensures eff == old(eff) + 1 && appCalls == old(appCalls) + 1
+//@ ensures result1 == nil ==> result0 != nil
+
+//@ func (*pub.sideEffectActor).GetInbox
+//@ [C11] requires a != nil && a.s2s != nil
+//@ [C07] requires authed: authed
+//@ modifies eff, appCalls
+//@ ensures eff == old(eff) + 1 && appCalls == old(appCalls) + 1
+//@ ensures result1 == nil ==> result0 != nil
+
+//@ func (*pub.sideEffectActor).AuthorizePostInbox
+//@ [C11] requires a != nil && a.s2s != nil && w != nil && activity != nil
+//@ [C07] requires authed: authed
+//@ [C07] ensures cleared_iff_authorized: cleared == (authorized && err == nil)
+//@ [C07] ensures no_effect: eff == old(eff)
+//@ [C10] requires nothing_written: wrote == 0 && libWrote == 0 && bodyWrites == 0
+//@ [C10] ensures authorized_unwritten: authorized ==> wrote == 0 && libWrote == 0 && err == nil
+//@ [C10] ensures error_unwritten: err != nil ==> wrote == 0 && libWrote == 0 && !authorized
+//@ [C10] ensures blocked_403: !authorized && err == nil ==> wrote == 1 && libWrote == 1 && status == 403 && bodyWrites == 0
+//@ modifies cleared, appCalls, wrote, libWrote, status, A:Int, A:Iface
+
+//@ func (*pub.sideEffectActor).PostInbox
+//@ [C11] requires a != nil && a.db != nil && a.s2s != nil && a.common != nil && inboxIRI != nil && activity != nil
+//@ [C09] requires unlocked: held == emp
+//@ [C09] ensures unlocked: held == emp
+//@ [C08] requires unlocked: held == emp
+//@ [C08] ensures unlocked: held == emp
+//@ [C07] requires authed: authed && cleared
+//@ modifies $db, A:Int, A:Iface
+
+//@ func (*pub.sideEffectActor).InboxForwarding
+//@ [C11] requires a != nil && a.db != nil && a.s2s != nil && a.common != nil && inboxIRI != nil && activity != nil
+//@ [C09] requires unlocked: held == emp
+//@ [C09] ensures unlocked: held == emp
+//@ [C08] requires unlocked: held == emp
+//@ [C08] ensures unlocked: held == emp
+//@ [C07] requires authed: authed && cleared
+//@ modifies $db, A:Int, A:Iface
+//@ loop 4 [C09] invariant unlocked: held == emp
+//@ loop 4 [C08] invariant unlocked: held == emp
+//@ loop 4 [C09] invariant nothing_deferred: deferredUnlock == emp
+//@ loop 4 [C08] invariant nothing_deferred: deferredUnlock == emp
+//@ loop 5 [C09] invariant held_is_deferred: held == deferredUnlock
+//@ loop 5 [C08] invariant held_is_deferred: held == deferredUnlock
+
+//@ func (*pub.sideEffectActor).PostOutbox
+//@ [C11] requires a != nil && a.db != nil && a.common != nil && outboxIRI != nil && activity != nil
+//@ [C09] requires unlocked: held == emp
+//@ [C09] ensures unlocked: held == emp
+//@ [C08] requires unlocked: held == emp
+//@ [C08] ensures unlocked: held == emp
+//@ [C07] requires authed: authed
+//@ modifies $db, A:Int, A:Iface
+
+//@ func (*pub.sideEffectActor).AddNewIDs
+//@ [C11] requires a != nil && a.db != nil && activity != nil
+//@ [C07] requires authed: authed
+//@ [C09] ensures unchanged: held == old(held)
+//@ [C08] ensures unchanged: held == old(held)
+//@ modifies eff, appCalls, ASH
+
+//@ func (*pub.sideEffectActor).Deliver
+//@ [C11] requires a != nil && a.db != nil && a.common != nil && a.s2s != nil && outboxIRI != nil && activity != nil
+//@ [C09] requires unlocked: held == emp
+//@ [C09] ensures unlocked: held == emp
+//@ [C08] requires unlocked: held == emp
+//@ [C08] ensures unlocked: held == emp
+//@ [C07] requires authed: authed
+//@ modifies $db, A:Int, A:Iface
+
+//@ func (*pub.sideEffectActor).WrapInCreate
+//@ [C11] requires a != nil && a.db != nil && outboxIRI != nil && obj != nil
+//@ [C09] requires unlocked: held == emp
+//@ [C09] ensures unlocked: held == emp
+//@ [C08] requires unlocked: held == emp
+//@ [C08] ensures unlocked: held == emp
+//@ [C07] requires authed: authed
+//@ modifies $db
+
+//@ func (*pub.sideEffectActor).deliverToRecipients
+//@ [C11] requires a != nil && a.common != nil && activity != nil
+//@ [C07] requires authed: authed
+//@ modifies eff, appCalls, nDeliver
+
+//@ func (*pub.sideEffectActor).addToOutbox
+//@ [C11] requires a != nil && a.db != nil && outboxIRI != nil && activity != nil
+//@ [C09] requires unlocked: held == emp
+//@ [C09] ensures unlocked: held == emp
+//@ [C08] requires unlocked: held == emp
+//@ [C08] ensures unlocked: held == emp
+//@ [C07] requires authed: authed
+//@ modifies $db
+
+//@ func (*pub.sideEffectActor).addToInboxIfNew
+//@ [C11] requires a != nil && a.db != nil && inboxIRI != nil && activity != nil
+//@ [C09] requires unlocked: held == emp
+//@ [C09] ensures unlocked: held == emp
+//@ [C08] requires unlocked: held == emp
+//@ [C08] ensures unlocked: held == emp
+//@ [C07] requires authed: authed && cleared
+//@ [C08] at call Database.SetInbox#1: assert contains_same_hold: epochContains[str(inboxIRI)] == epoch[str(inboxIRI)] && held[str(inboxIRI)]
+//@ modifies $db
+
+//@ func (*pub.sideEffectActor).hasInboxForwardingValues
+//@ [C11] requires a != nil && a.db != nil && a.common != nil && val != nil
+//@ [C09] requires unlocked: held == emp
+//@ [C09] ensures unlocked: held == emp
+//@ [C08] requires unlocked: held == emp
+//@ [C08] ensures unlocked: held == emp
+//@ [C07] requires authed: authed && cleared
+//@ modifies $db, A:Int, A:Iface
+//@ loop 1 [C09] invariant unlocked: held == emp
+//@ loop 1 [C08] invariant unlocked: held == emp
+//@ loop 2 [C09] invariant unlocked: held == emp
+//@ loop 2 [C08] invariant unlocked: held == emp
+//@ loop 3 [C09] invariant unlocked: held == emp
+//@ loop 3 [C08] invariant unlocked: held == emp
+//@ loop 4 [C09] invariant unlocked: held == emp
+//@ loop 4 [C08] invariant unlocked: held == emp
+
+//@ func (*pub.sideEffectActor).prepare
+//@ [C11] requires a != nil && a.db != nil && a.common != nil && a.s2s != nil && outboxIRI != nil && activity != nil
+//@ [C09] requires unlocked: held == emp
+//@ [C09] ensures unlocked: held == emp
+//@ [C08] requires unlocked: held == emp
+//@ [C08] ensures unlocked: held == emp
+//@ [C07] requires authed: authed
+//@ modifies $db, A:Int, A:Iface
+//@ loop 6 [C09] invariant unlocked: held == emp
+//@ loop 6 [C08] invariant unlocked: held == emp
+
+//@ func (*pub.sideEffectActor).resolveActors
+//@ [C11] requires a != nil && t != nil
+//@ [C07] requires authed: authed
+//@ modifies eff, appCalls, A:Int, A:Iface
+
+//@ func (*pub.sideEffectActor).dereferenceForResolvingInboxes
+//@ [C11] requires a != nil && t != nil
+//@ [C07] requires authed: authed
+//@ modifies eff, appCalls, A:Int, A:Iface
+
+// ---------------------------------------------------------------- federating_wrapped_callbacks.go
+//@ func (pub.FederatingWrappedCallbacks).create
+//@ [C11] requires w.db != nil && w.inboxIRI != nil && a != nil
+//@ [C09] requires unlocked: held == emp
+//@ [C09] ensures unlocked: held == emp
+//@ [C08] requires unlocked: held == emp
+//@ [C08] ensures unlocked: held == emp
+//@ [C07] requires authed: authed && cleared
+//@ modifies $db
+//@ loop 1 [C09] invariant unlocked: held == emp
+//@ loop 1 [C08] invariant unlocked: held == emp
+
+//@ func (pub.FederatingWrappedCallbacks).create$1
+//@ [C11] requires w.db != nil && w.inboxIRI != nil && iter != nil
+//@ [C09] requires unlocked: held == emp
+//@ [C09] ensures unlocked: held == emp
+//@ [C08] requires unlocked: held == emp
+//@ [C08] ensures unlocked: held == emp
+//@ [C07] requires authed: authed && cleared
+//@ modifies $db
+
+//@ func (pub.FederatingWrappedCallbacks).update
+//@ [C11] requires w.db != nil && w.inboxIRI != nil && a != nil
+//@ [C09] requires unlocked: held == emp
+//@ [C09] ensures unlocked: held == emp
+//@ [C08] requires unlocked: held == emp
+//@ [C08] ensures unlocked: held == emp
+//@ [C07] requires authed: authed && cleared
+//@ modifies $db
+//@ loop 1 [C09] invariant unlocked: held == emp
+//@ loop 1 [C08] invariant unlocked: held == emp
+
+//@ func (pub.FederatingWrappedCallbacks).update$1
+//@ [C11] requires w.db != nil && iter != nil
+//@ [C09] requires unlocked: held == emp
+//@ [C09] ensures unlocked: held == emp
+//@ [C08] requires unlocked: held == emp
+//@ [C08] ensures unlocked: held == emp
+//@ [C07] requires authed: authed && cleared
+//@ modifies $db
+
+//@ func (pub.FederatingWrappedCallbacks).deleteFn
+//@ [C11] requires w.db != nil && w.inboxIRI != nil && a != nil
+//@ [C09] requires unlocked: held == emp
+//@ [C09] ensures unlocked: held == emp
+//@ [C08] requires unlocked: held == emp
+//@ [C08] ensures unlocked: held == emp
+//@ [C07] requires authed: authed && cleared
+//@ modifies $db
+//@ loop 1 [C09] invariant unlocked: held == emp
+//@ loop 1 [C08] invariant unlocked: held == emp
+
+//@ func (pub.FederatingWrappedCallbacks).deleteFn$1
+//@ [C11] requires w.db != nil && iter != nil
+//@ [C09] requires unlocked: held == emp
+//@ [C09] ensures unlocked: held == emp
+//@ [C08] requires unlocked: held == emp
+//@ [C08] ensures unlocked: held == emp
+//@ [C07] requires authed: authed && cleared
+//@ modifies $db
+
+//@ func (pub.FederatingWrappedCallbacks).follow
+//@ [C11] requires w.db != nil && w.inboxIRI != nil && a != nil
+//@ [C09] requires unlocked: held == emp
+//@ [C09] ensures unlocked: held == emp
+//@ [C08] requires unlocked: held == emp
+//@ [C08] ensures unlocked: held == emp
+//@ [C07] requires authed: authed && cleared
+//@ modifies $db, A:Int, A:Iface
+//@ [C08] at call Database.Update#1: assert same_hold: held[srcKey[followers]] && srcEpoch[followers] == epoch[srcKey[followers]]
+
+//@ func (pub.FederatingWrappedCallbacks).accept
+//@ [C11] requires w.db != nil && w.inboxIRI != nil && a != nil
+//@ [C09] requires unlocked: held == emp
+//@ [C09] ensures unlocked: held == emp
+//@ [C08] requires unlocked: held == emp
+//@ [C08] ensures unlocked: held == emp
+//@ [C07] requires authed: authed && cleared
+//@ modifies $db, A:Int, A:Iface
+//@ [C08] at call Database.Update#1: assert same_hold: held[srcKey[following]] && srcEpoch[following] == epoch[srcKey[following]]
+//@ loop 1 [C09] invariant unlocked: held == emp
+//@ loop 1 [C08] invariant unlocked: held == emp
+//@ loop 3 [C09] invariant holds_actor: held == emp[str(actorIRI) := true]
+//@ loop 3 [C08] invariant holds_actor: held == emp[str(actorIRI) := true] && srcKey[following] == str(actorIRI) && srcEpoch[following] == epoch[str(actorIRI)]
+
+//@ func (pub.FederatingWrappedCallbacks).accept$1
+//@ [C11] requires w.db != nil && maybeMyFollowIRI != nil && actorIRI != nil && activityActors != nil
+//@ [C09] requires unlocked: held == emp
+//@ [C09] ensures unlocked: held == emp
+//@ [C08] requires unlocked: held == emp
+//@ [C08] ensures unlocked: held == emp
+//@ [C07] requires authed: authed && cleared
+//@ modifies $db
+
+//@ func (pub.FederatingWrappedCallbacks).reject
+//@ [C11] requires w.db != nil && w.inboxIRI != nil && a != nil
+//@ [C09] requires unlocked: held == emp
+//@ [C09] ensures unlocked: held == emp
+//@ [C08] requires unlocked: held == emp
+//@ [C08] ensures unlocked: held == emp
+//@ [C07] requires authed: authed && cleared
+//@ modifies $db
+
+//@ func (pub.FederatingWrappedCallbacks).add
+//@ [C11] requires w.db != nil && w.inboxIRI != nil && a != nil
+//@ [C09] requires unlocked: held == emp
+//@ [C09] ensures unlocked: held == emp
+//@ [C08] requires unlocked: held == emp
+//@ [C08] ensures unlocked: held == emp
+//@ [C07] requires authed: authed && cleared
+//@ modifies $db
+
+//@ func (pub.FederatingWrappedCallbacks).remove
+//@ [C11] requires w.db != nil && w.inboxIRI != nil && a != nil
+//@ [C09] requires unlocked: held == emp
+//@ [C09] ensures unlocked: held == emp
+//@ [C08] requires unlocked: held == emp
+//@ [C08] ensures unlocked: held == emp
+//@ [C07] requires authed: authed && cleared
+//@ modifies $db
+
+//@ func (pub.FederatingWrappedCallbacks).like
+//@ [C11] requires w.db != nil && w.inboxIRI != nil && a != nil
+//@ [C09] requires unlocked: held == emp
+//@ [C09] ensures unlocked: held == emp
+//@ [C08] requires unlocked: held == emp
+//@ [C08] ensures unlocked: held == emp
+//@ [C07] requires authed: authed && cleared
+//@ modifies $db
+//@ loop 1 [C09] invariant unlocked: held == emp
+//@ loop 1 [C08] invariant unlocked: held == emp
+
+//@ func (pub.FederatingWrappedCallbacks).like$1
+//@ [C11] requires w.db != nil && iter != nil && id != nil
+//@ [C09] requires unlocked: held == emp
+//@ [C09] ensures unlocked: held == emp
+//@ [C08] requires unlocked: held == emp
+//@ [C08] ensures unlocked: held == emp
+//@ [C07] requires authed: authed && cleared
+//@ [C08] at call Database.Update#1: assert same_hold: held[srcKey[t]] && srcEpoch[t] == epoch[srcKey[t]]
+//@ modifies $db
+
+//@ func (pub.FederatingWrappedCallbacks).announce
+//@ [C11] requires w.db != nil && w.inboxIRI != nil && a != nil
+//@ [C09] requires unlocked: held == emp
+//@ [C09] ensures unlocked: held == emp
+//@ [C08] requires unlocked: held == emp
+//@ [C08] ensures unlocked: held == emp
+//@ [C07] requires authed: authed && cleared
+//@ modifies $db
+//@ loop 1 [C09] invariant unlocked: held == emp
+//@ loop 1 [C08] invariant unlocked: held == emp
+
+//@ func (pub.FederatingWrappedCallbacks).announce$1
+//@ [C11] requires w.db != nil && iter != nil && id != nil
+//@ [C09] requires unlocked: held == emp
+//@ [C09] ensures unlocked: held == emp
+//@ [C08] requires unlocked: held == emp
+//@ [C08] ensures unlocked: held == emp
+//@ [C07] requires authed: authed && cleared
+//@ [C08] at call Database.Update#1: assert same_hold: held[srcKey[t]] && srcEpoch[t] == epoch[srcKey[t]]
+//@ modifies $db
+
+//@ func (pub.FederatingWrappedCallbacks).undo
+//@ [C11] requires w.db != nil && w.inboxIRI != nil && a != nil
+//@ [C09] requires unlocked: held == emp
+//@ [C09] ensures unlocked: held == emp
+//@ [C08] requires unlocked: held == emp
+//@ [C08] ensures unlocked: held == emp
+//@ [C07] requires authed: authed && cleared
+//@ modifies $db
+
+//@ func (pub.FederatingWrappedCallbacks).block
+//@ [C11] requires w.db != nil && w.inboxIRI != nil && a != nil
+//@ [C09] requires unlocked: held == emp
+//@ [C09] ensures unlocked: held == emp
+//@ [C08] requires unlocked: held == emp
+//@ [C08] ensures unlocked: held == emp
+//@ [C07] requires authed: authed && cleared
+//@ modifies $db
+
+//@ func (pub.FederatingWrappedCallbacks).callbacks
+//@ modifies A:Int, A:Iface
+
+// ---------------------------------------------------------------- social_wrapped_callbacks.go
+//@ func (pub.SocialWrappedCallbacks).create
+//@ [C11] requires w.db != nil && w.outboxIRI != nil && w.undeliverable != nil && a != nil
+//@ [C09] requires unlocked: held == emp
+//@ [C09] ensures unlocked: held == emp
+//@ [C08] requires unlocked: held == emp
+//@ [C08] ensures unlocked: held == emp
+//@ [C07] requires authed: authed
+//@ modifies $db, C:Bool[w.undeliverable], A:Int, A:Iface, MD:String:Int, MV:String:Int
+//@ loop 9 [C09] invariant unlocked: held == emp
+//@ loop 9 [C08] invariant unlocked: held == emp
+
+//@ func (pub.SocialWrappedCallbacks).create$1
+//@ [C11] requires w.db != nil && op != nil
+//@ [C09] requires unlocked: held == emp
+//@ [C09] ensures unlocked: held == emp
+//@ [C08] requires unlocked: held == emp
+//@ [C08] ensures unlocked: held == emp
+//@ [C07] requires authed: authed
+//@ modifies $db
+
+//@ func (pub.SocialWrappedCallbacks).update
+//@ [C11] requires w.db != nil && w.outboxIRI != nil && w.undeliverable != nil && a != nil
+//@ [C09] requires unlocked: held == emp
+//@ [C09] ensures unlocked: held == emp
+//@ [C08] requires unlocked: held == emp
+//@ [C08] ensures unlocked: held == emp
+//@ [C07] requires authed: authed
+//@ modifies $db, C:Bool[w.undeliverable], A:Int, A:Iface
+//@ loop 2 [C09] invariant unlocked: held == emp
+//@ loop 2 [C08] invariant unlocked: held == emp
+
+//@ func (pub.SocialWrappedCallbacks).update$1
+//@ [C11] requires w.db != nil && op != nil && loopId != nil
+//@ [C09] requires unlocked: held == emp
+//@ [C09] ensures unlocked: held == emp
+//@ [C08] requires unlocked: held == emp
+//@ [C08] ensures unlocked: held == emp
+//@ [C07] requires authed: authed
+//@ modifies $db, MD:String:Iface, MV:String:Iface
+
+//@ func (pub.SocialWrappedCallbacks).deleteFn
+//@ [C11] requires w.db != nil && w.outboxIRI != nil && w.undeliverable != nil && a != nil
+//@ [C09] requires unlocked: held == emp
+//@ [C09] ensures unlocked: held == emp
+//@ [C08] requires unlocked: held == emp
+//@ [C08] ensures unlocked: held == emp
+//@ [C07] requires authed: authed
+//@ modifies $db, C:Bool[w.undeliverable], A:Int, A:Iface
+//@ loop 2 [C09] invariant unlocked: held == emp
+//@ loop 2 [C08] invariant unlocked: held == emp
+
+//@ func (pub.SocialWrappedCallbacks).deleteFn$1
+//@ [C11] requires w.db != nil && w.clock != nil && loopId != nil
+//@ [C09] requires unlocked: held == emp
+//@ [C09] ensures unlocked: held == emp
+//@ [C08] requires unlocked: held == emp
+//@ [C08] ensures unlocked: held == emp
+//@ [C07] requires authed: authed
+//@ modifies $db
+
+//@ func (pub.SocialWrappedCallbacks).follow
+//@ [C11] requires w.db != nil && w.outboxIRI != nil && w.undeliverable != nil && a != nil
+//@ [C09] requires unlocked: held == emp
+//@ [C09] ensures unlocked: held == emp
+//@ [C08] requires unlocked: held == emp
+//@ [C08] ensures unlocked: held == emp
+//@ [C07] requires authed: authed
+//@ modifies $db, C:Bool[w.undeliverable]
+
+//@ func (pub.SocialWrappedCallbacks).add
+//@ [C11] requires w.db != nil && w.outboxIRI != nil && w.undeliverable != nil && a != nil
+//@ [C09] requires unlocked: held == emp
+//@ [C09] ensures unlocked: held == emp
+//@ [C08] requires unlocked: held == emp
+//@ [C08] ensures unlocked: held == emp
+//@ [C07] requires authed: authed
+//@ modifies $db, C:Bool[w.undeliverable]
+
+//@ func (pub.SocialWrappedCallbacks).remove
+//@ [C11] requires w.db != nil && w.outboxIRI != nil && w.undeliverable != nil && a != nil
+//@ [C09] requires unlocked: held == emp
+//@ [C09] ensures unlocked: held == emp
+//@ [C08] requires unlocked: held == emp
+//@ [C08] ensures unlocked: held == emp
+//@ [C07] requires authed: authed
+//@ modifies $db, C:Bool[w.undeliverable]
+
+//@ func (pub.SocialWrappedCallbacks).like
+//@ [C11] requires w.db != nil && w.outboxIRI != nil && w.undeliverable != nil && a != nil
+//@ [C09] requires unlocked: held == emp
+//@ [C09] ensures unlocked: held == emp
+//@ [C08] requires unlocked: held == emp
+//@ [C08] ensures unlocked: held == emp
+//@ [C07] requires authed: authed
+//@ modifies $db, C:Bool[w.undeliverable]
+//@ [C08] at call Database.Update#1: assert same_hold: held[srcKey[liked]] && srcEpoch[liked] == epoch[srcKey[liked]]
+//@ loop 1 [C09] invariant holds_actor: held == emp[str(actorIRI) := true]
+//@ loop 1 [C08] invariant holds_actor: held == emp[str(actorIRI) := true] && srcKey[liked] == str(actorIRI) && srcEpoch[liked] == epoch[str(actorIRI)]
+
+//@ func (pub.SocialWrappedCallbacks).undo
+//@ [C11] requires w.db != nil && w.outboxIRI != nil && w.undeliverable != nil && a != nil
+//@ [C09] requires unlocked: held == emp
+//@ [C09] ensures unlocked: held == emp
+//@ [C08] requires unlocked: held == emp
+//@ [C08] ensures unlocked: held == emp
+//@ [C07] requires authed: authed
+//@ modifies $db, C:Bool[w.undeliverable]
+
+//@ func (pub.SocialWrappedCallbacks).block
+//@ [C11] requires w.db != nil && w.outboxIRI != nil && w.undeliverable != nil && a != nil
+//@ [C09] requires unlocked: held == emp
+//@ [C09] ensures unlocked: held == emp
+//@ [C08] requires unlocked: held == emp
+//@ [C08] ensures unlocked: held == emp
+//@ [C07] requires authed: authed
+//@ modifies $db, C:Bool[w.undeliverable]
+
+//@ func (pub.SocialWrappedCallbacks).callbacks
+//@ modifies A:Int, A:Iface
+
+// ---------------------------------------------------------------- util.go, handlers.go
+//@ func pub.add
+//@ [C11] requires op != nil && target != nil && db != nil
+//@ [C09] requires unlocked: held == emp
+//@ [C09] ensures unlocked: held == emp
+//@ [C08] requires unlocked: held == emp
+//@ [C08] ensures unlocked: held == emp
+//@ [C07] requires authed: authed
+//@ modifies $db, A:Int, A:Iface
+//@ loop 3 [C09] invariant unlocked: held == emp
+//@ loop 3 [C08] invariant unlocked: held == emp
+
+//@ func pub.add$1
+//@ [C11] requires db != nil && t != nil
+//@ [C09] requires unlocked: held == emp
+//@ [C09] ensures unlocked: held == emp
+//@ [C08] requires unlocked: held == emp
+//@ [C08] ensures unlocked: held == emp
+//@ [C07] requires authed: authed
+//@ [C08] at call Database.Update#1: assert same_hold: held[srcKey[tp]] && srcEpoch[tp] == epoch[srcKey[tp]]
+//@ modifies $db
+//@ loop 1 [C09] invariant holds_t: held == emp[str(t) := true]
+//@ loop 2 [C09] invariant holds_t: held == emp[str(t) := true]
+//@ loop 1 [C08] invariant holds_t: held == emp[str(t) := true] && srcKey[tp] == str(t) && srcEpoch[tp] == epoch[str(t)]
+//@ loop 2 [C08] invariant holds_t: held == emp[str(t) := true] && srcKey[tp] == str(t) && srcEpoch[tp] == epoch[str(t)]
+
+//@ func pub.remove
+//@ [C11] requires op != nil && target != nil && db != nil
+//@ [C09] requires unlocked: held == emp
+//@ [C09] ensures unlocked: held == emp
+//@ [C08] requires unlocked: held == emp
+//@ [C08] ensures unlocked: held == emp
+//@ [C07] requires authed: authed
+//@ modifies $db, A:Int, A:Iface
+//@ loop 3 [C09] invariant unlocked: held == emp
+//@ loop 3 [C08] invariant unlocked: held == emp
+
+//@ func pub.remove$1
+//@ [C11] requires db != nil && t != nil
+//@ [C09] requires unlocked: held == emp
+//@ [C09] ensures unlocked: held == emp
+//@ [C08] requires unlocked: held == emp
+//@ [C08] ensures unlocked: held == emp
+//@ [C07] requires authed: authed
+//@ [C08] at call Database.Update#1: assert same_hold: held[srcKey[tp]] && srcEpoch[tp] == epoch[srcKey[tp]]
+//@ modifies $db
+//@ loop 1 [C09] invariant holds_t: held == emp[str(t) := true]
+//@ loop 2 [C09] invariant holds_t: held == emp[str(t) := true]
+//@ loop 1 [C08] invariant holds_t: held == emp[str(t) := true] && srcKey[tp] == str(t) && srcEpoch[tp] == epoch[str(t)]
+//@ loop 2 [C08] invariant holds_t: held == emp[str(t) := true] && srcKey[tp] == str(t) && srcEpoch[tp] == epoch[str(t)]
+
+//@ func pub.mustHaveActivityActorsMatchObjectActors
+//@ [C11] requires newTransport != nil
+//@ [C07] requires authed: authed
+//@ modifies eff, appCalls
+
+//@ func pub.ToId
+//@ [C11] requires i != nil
+
+//@ func pub.GetId
+//@ [C11] requires t != nil
+
+//@ func pub.getInboxForwardingValues
+//@ [C11] requires o != nil
+//@ modifies A:Int, A:Iface
+
+//@ func pub.wrapInCreate
+//@ [C11] requires o != nil
+//@ modifies ASH
+
+//@ func pub.filterURLs
+//@ modifies A:Int
+//@ dyncall pub.filterURLs.fn
+//@ pure
+
+//@ func pub.getInboxes
+//@ modifies A:Int, A:Iface
+
+//@ func pub.getInbox
+
+//@ func pub.dedupeIRIs
+//@ modifies A:Int, A:Iface
+
+//@ func pub.removeOne
+//@ modifies A:Int, A:Iface
+
+//@ func pub.stripHiddenRecipients
+//@ [C11] requires activity != nil
+//@ modifies ASH
+
+//@ func pub.mustHaveActivityOriginMatchObjects
+//@ [C11] requires a != nil
+
+//@ func pub.normalizeRecipients
+//@ [C11] requires a != nil
+//@ modifies ASH, A:Int, A:Iface, MD:String:Int, MV:String:Int
+
+//@ func pub.toTombstone
+//@ [C11] requires obj != nil
+//@ modifies ASH
+
+//@ func pub.clearSensitiveFields
+//@ modifies ASH
+
+//@ func pub.dedupeOrderedItems
+//@ [C11] requires oc != nil
+//@ modifies ASH
+
+//@ func pub.requestId
+//@ [C11] requires r != nil && r.URL != nil
+//@ ensures result != nil
+//@ modifies H:net/url.URL.Host, H:net/url.URL.Scheme
+
+//@ func pub.isActivityPubPost
+//@ [C11] requires r != nil
+//@ ensures result == (r.Method == "POST" && isASMedia(hdr[r.Header]["Content-Type"]))
+
+//@ func pub.isActivityPubGet
+//@ [C11] requires r != nil
+//@ ensures result == (r.Method == "GET" && isASMedia(hdr[r.Header]["Accept"]))
+
+//@ func pub.headerIsActivityPubMediaType
+//@ ensures result == isASMedia(header)
+//@ trusted
+
+//@ func pub.addResponseHeaders
+//@ [C11] requires c != nil
+//@ modifies hdr, bufstr
+
+//@ func pub.IsPublic
+
+//@ func pub.NewActivityStreamsHandlerScheme$1
+//@ [C11] requires db != nil && clock != nil && w != nil && r != nil && r.URL != nil
+//@ [C09] requires unlocked: held == emp
+//@ [C09] ensures unlocked: held == emp
+//@ [C08] requires unlocked: held == emp
+//@ [C08] ensures unlocked: held == emp
+//@ [C07] requires authed: authed
+//@ [C07] requires fresh_request: eff == 0 && appCalls == 0 && wrote == 0
+//@ [C07] ensures not_ap: !(r.Method == "GET" && isASMedia(old(hdr)[r.Header]["Accept"])) ==> !isASRequest && err == nil && eff == 0 && appCalls == 0 && wrote == 0
+//@ [C10] requires fresh_request: wrote == 0 && libWrote == 0 && bodyWrites == 0
+//@ [C10] ensures not_handled: !isASRequest ==> wrote == 0 && err == nil
+//@ [C10] ensures error_unwritten: isASRequest && err != nil ==> libWrote == 0
+//@ [C10] ensures one_status: isASRequest && err == nil ==> wrote == 1 && (status == 200 || status == 410)
+//@ modifies $db, wrote, libWrote, status, bodyWrites, hdr, bufstr, H:net/url.URL.Host, H:net/url.URL.Scheme, A:Int, A:Iface
+
